@@ -252,6 +252,9 @@ class Engine:
         return v
 
     def _module_global(self, mod, name, st):
+        ov = getattr(self.registry, 'global_overrides', {}) if self.registry else {}
+        if (mod.name, name) in ov:
+            return ov[(mod.name, name)]
         if name in mod.funcs:
             return FuncRef(mod.funcs[name])
         if name in mod.classes:
